@@ -360,6 +360,12 @@ let run ~seed ~tier oc =
   done;
   (* 3. render comparison *)
   List.iter (emit_render oc "fixed") templates;
+  (* bytes that tools like to strip, at the very start and the very end of a source: a compiled template carries
+     its source byte for byte *)
+  List.iter (fun t ->
+    List.iter (fun e -> emit_render oc "edge-bytes" (e ^ t); emit_render oc "edge-bytes" (t ^ e))
+      [ "\xef\xbb\xbf"; "\xfe\xff"; "\xff\xfe"; "\x00"; "\r\n"; "\n"; " "; "\t"; "#!twig\n"; "\x1a"; "\xef\xbb"; "\xef\xbb\xbf\xef\xbb\xbf"; "\xc2\xa0"; "\xe2\x80\x8b" ])
+    [ "Hello {{ a }}"; "{% if flag %}yes{% endif %}"; "x" ];
   let tarr = Array.of_list templates in
   let nren = if thorough then 1500 else 60 in
   for _ = 1 to nren do
